@@ -229,8 +229,44 @@ def fam_misc(tier):
     return [env, env2]
 
 
+# ------------------------------------------------------------------ uni: multi-byte alphabets (C09)
+def fam_uni(tier):
+    ea = 'é'.encode()
+    zh = '中'.encode()
+    em = '\U0001F600'.encode()
+    rules = [
+        ('w', 'inh', 'both', choice(S(' '), 'newline'), False),
+        ('word', 'true', 'span', plus('off', seq('off', neg(choice(S(' '), 'newline', S('é'))), 'any')), False),
+        ('pair', 'inh', 'both', seq('inh', push(rule('word')), S('é'), 'peek'), False),
+        ('doc', 'inh', 'both', seq('inh', 'soi', star('inh', choice(rule('pair'), rule('word'))), rule('EOI')), False),
+    ]
+    env = Env('un_rules', skip=rule('w', 'off'), rules=rules, shapes=[('rule', r[0]) for r in rules])
+    env.alpha = [b'a', ea, zh, em, b' ', b'\n']
+    env.maxlen = 4 if tier == 'quick' else 5
+    env.family = 'uni'
+    shapes = [
+        ('node', True, star('off', 'any')),
+        ('node', True, star('off', R('a', '中'))),
+        ('node', True, seq('off', I('éA'), star('off', 'any'))),
+        ('node', True, seq('off', ('skipuntil', [zh, b'a']), opt('any'))),
+        ('node', True, seq('off', ('skipuntil', [em[:2].hex() and em]), 'any')),
+        ('node', True, star('off', ('skipchars', 2))),
+        ('node', True, seq('off', push('any'), star('off', 'peek'), opt(seq('off', 'pop', 'eoi')))),
+        ('node', True, seq('off', push(seq('off', 'any', 'any')), push('any'), 'peekall', ('slice', 0, 1), ('slice', -1, None))),
+        ('node', True, star('off', seq('off', neg(S('中')), ('charby', 'ALPHABETIC')))),
+        ('node', True, seq('off', star('off', 'newline'), pos('any'), ('arr', 2, 'any'))),
+        ('node', True, star('off', choice(S('é'), S('中a'), I('A'), 'newline'))),
+    ]
+    env2 = Env('un_nodes', skip=None, rules=[], shapes=shapes)
+    env2.alpha = [b'a', b'A', ea, zh, em, b'\r', b'\n']
+    env2.maxlen = 3 if tier == 'quick' else 4
+    env2.family = 'uni'
+    env2.pred_names = ['ALPHABETIC']
+    return [env, env2]
+
+
 def catalogue(tier):
-    return fam_bounds(tier) + fam_stack(tier) + fam_slices(tier) + fam_misc(tier)
+    return fam_bounds(tier) + fam_stack(tier) + fam_slices(tier) + fam_misc(tier) + fam_uni(tier)
 
 
 def boundaries(s):
@@ -266,7 +302,7 @@ def inputs_for(env, tier, forms=('str',)):
         pre = getattr(env, 'prefix', b'')
         strs = [pre + x for x in strs] + list(getattr(env, 'extra', []))
         base = [('str', x, 0, 0) for x in strs]
-        if fam == 'misc':
+        if fam in ('misc', 'uni'):
             sub_max = env.maxlen * 4
             sub_src = strs
         else:
